@@ -735,7 +735,7 @@ func runC17(r *rt.Runner) {
 			}
 		}
 	}
-	for i := 0; i < r.Scale(400, 12000); i++ {
+	for i := 0; i < r.Scale(400, 50000); i++ {
 		r.Do(fmt.Sprintf("solo/%d", i), func(c *rt.C) {
 			g := &j5Gen{rng: c.Rand()}
 			p := g.entityPlan("solo.v1", nil, g.rng.Intn(3), 1+g.rng.Intn(3))
@@ -743,7 +743,7 @@ func runC17(r *rt.Runner) {
 			c17Bundle(c, b, []*jEntityPlan{p}, fmt.Sprintf("solo:%d", i), "solo-entity")
 		})
 	}
-	for i := 0; i < r.Scale(200, 6000); i++ {
+	for i := 0; i < r.Scale(200, 25000); i++ {
 		r.Do(fmt.Sprintf("api/%d", i), func(c *rt.C) {
 			g := &j5Gen{rng: c.Rand()}
 			b, plans := g.apiBundle(true, i%3 == 0, g.rng.Intn(7))
